@@ -26,15 +26,15 @@ type opMark struct {
 
 // lifetime is the record of one server lifetime.
 type lifetime struct {
-	base  *simos.FS // disk at start
-	log   []*simos.Op
-	marks []opMark // per workload op index
-	from  int      // first workload op index of this lifetime
-	to    int      // one past the last op executed
-	sim   *simrt.Sim
-	start *StartError
-	writeErrs []string
-	taint     map[string]string // bucket -> why its live (uncrashed) content already disagrees with the model
+	base        *simos.FS // disk at start
+	log         []*simos.Op
+	marks       []opMark // per workload op index
+	from        int      // first workload op index of this lifetime
+	to          int      // one past the last op executed
+	sim         *simrt.Sim
+	start       *StartError
+	writeErrs   []string
+	taint       map[string]string // bucket -> why its live (uncrashed) content already disagrees with the model
 	wantFinal   bool
 	finalRows   map[string][]OutRow
 	finalErr    map[string]error
@@ -353,14 +353,14 @@ func normMsg(s string) string {
 
 // crashState is the incremental model while k sweeps the log.
 type crashState struct {
-	w       *Workload
-	lt      *lifetime
-	acked   *Model            // all ops acknowledged before k
-	exists  map[string]*Bucket // buckets whose creation (explicit or by acked write) completed before k
-	issued  map[string]map[int64]bool // bucket -> ids issued before k
-	nextAck int               // next workload op index not yet acked
-	nextIss int
-	lastSyncFS int // log index of the last global sync before k (-1 none)
+	w          *Workload
+	lt         *lifetime
+	acked      *Model                    // all ops acknowledged before k
+	exists     map[string]*Bucket        // buckets whose creation (explicit or by acked write) completed before k
+	issued     map[string]map[int64]bool // bucket -> ids issued before k
+	nextAck    int                       // next workload op index not yet acked
+	nextIss    int
+	lastSyncFS int         // log index of the last global sync before k (-1 none)
 	dropped    []*simos.Op // power-loss image under evaluation: dropped/torn ops
 }
 
